@@ -1,4 +1,5 @@
 import OnetVerif.Model.C04
+import OnetVerif.Shapes
 /-! Property C04 — aggregated message types are delivered as one complete batch per round.
 Only property theorems, their non-vacuity examples and the lemmas they need. -/
 namespace C04
@@ -212,5 +213,22 @@ completion test counts messages, so a child that sends twice before a sibling se
 batch with two of its own messages. -/
 theorem c04_counts_messages_not_children :
     proj cfg3 1 (run cfg3 emptyQ [k 0 1, k 0 2, k 1 3]) = ([[k 0 1, k 0 2, k 1 3]], []) := by decide
+
+/-! ### the code regions the model stands for
+Regenerated from /repo's source on every run (`harness/cmd/astfacts` → `OnetVerif/Shapes.lean`): the
+calls that matter for synchronisation and data flow, the lock regions and (for decision logic) the
+conditions, in source order.  A re-ordering, a dropped call or a changed condition breaks these
+obligations even when no sampled input or schedule shows a difference; the check then searches for
+a failing input. -/
+theorem c04_shape_TreeNodeInstance_aggregate :
+    Shapes.treenode_TreeNodeInstance_aggregate =
+   ["n.IsRoot", "n.Parent", "TreeNodeID.Equal",
+     "if:(fromParent||!n.hasFlag(mt,AggregateMessages))", "return:mt,?,true", "if:!ok",
+     "if:(len(msgs)==len(n.Children()))", "return:mt,msgs,true", "return:mt,nil,false"] := rfl
+
+theorem c04_shape_TreeNodeInstance_dispatchMsgToProtocol :
+    Shapes.treenode_TreeNodeInstance_dispatchMsgToProtocol =
+   ["rx.add", "n.aggregate", "n.dispatchChannel", "n.dispatchHandler"] := rfl
+
 
 end C04
